@@ -39,8 +39,8 @@ fn viol(o: &Obs, rep: &mut Report, op: &str, class: &str, kind: &str, detail: St
     rep.violation(&format!("{}|{}|{}|{}", P, op, class, kind), format!("{} ; params {}", detail, o.spec.describe()), replay_json(o.cfg, o.grp, o.case, json!({"params": o.spec.describe(), "op": op, "class": class})));
 }
 
-fn chain_spec(rng: &mut Rng, scheme: SchemeType, levels: usize, special_flag: bool) -> Option<Spec> {
-    let n = *rng.pick(&[4usize, 8, 16]);
+fn chain_spec(rng: &mut Rng, scheme: SchemeType, levels: usize, special_flag: bool, ns: &[usize]) -> Option<Spec> {
+    let n = *rng.pick(ns);
     let k = if special_flag || levels == 1 && rng.bool() { levels } else { levels + 1 };
     let bits: Vec<u32> = (0..k).map(|_| rng.range(48, 60) as u32).collect();
     let qs = coeff_primes(n, &bits, rng)?;
@@ -54,9 +54,9 @@ const API_CT: [&str; 3] = ["inplace", "dest", "new"];
 fn deadline(cfg: &Cfg) -> Duration { Duration::from_secs(cfg.pick(10, 20)) }
 
 /// BFV / BGV
-fn exact_case(cfg: &Cfg, grp: &str, case: u64, rng: &mut Rng, rep: &mut Report, scheme: SchemeType, levels: usize) {
+fn exact_case(cfg: &Cfg, grp: &str, case: u64, rng: &mut Rng, rep: &mut Report, scheme: SchemeType, levels: usize, ns: &[usize]) {
     let sf = rng.chance(1, 4);
-    let Some(spec) = chain_spec(rng, scheme, levels, sf) else { return };
+    let Some(spec) = chain_spec(rng, scheme, levels, sf, ns) else { return };
     let Ok(kit) = Kit::new(&spec) else { rep.count("generator", "rejected"); return; };
     if kit.levels.len() != levels { rep.count("generator", "chain_length_differs"); }
     let kit = Arc::new(kit);
@@ -67,7 +67,7 @@ fn exact_case(cfg: &Cfg, grp: &str, case: u64, rng: &mut Rng, rep: &mut Report, 
     // BGV correction factor bookkeeping reference: f * prod q_dropped^-1 mod t
     let t = spec.t;
     for size in 2..=4usize {
-        let mut m = Machine::new(&kit, true);
+        let mut m = Machine::new(&kit, spec.n <= 256);
         let (_, c0) = gen_plain(rng, m.n(), t);
         if m.fresh(&c0, rng.bool()).is_err() { return; }
         let mut cur = 0usize;
@@ -219,7 +219,7 @@ fn exact_case(cfg: &Cfg, grp: &str, case: u64, rng: &mut Rng, rep: &mut Report, 
 /// CKKS
 fn ckks_case(cfg: &Cfg, grp: &str, case: u64, rng: &mut Rng, rep: &mut Report, levels: usize) {
     let sf = rng.chance(1, 4);
-    let Some(spec) = chain_spec(rng, SchemeType::CKKS, levels, sf) else { return };
+    let Some(spec) = chain_spec(rng, SchemeType::CKKS, levels, sf, &[4, 8, 16]) else { return };
     let Ok(kit) = Kit::new(&spec) else { rep.count("generator", "rejected"); return; };
     let kit = Arc::new(kit);
     let o = Obs { cfg, grp, case, spec: &spec };
@@ -329,10 +329,16 @@ pub fn run(cfg: &Cfg, rep: &mut Report) -> PropMeta {
     for levels in 1..=6usize {
         for scheme in [SchemeType::BFV, SchemeType::BGV] {
             let g = format!("{}_{}", scheme_name(scheme), levels);
-            run_cases(cfg, &g, per, rep, |i, rng, rep| exact_case(cfg, &g, i, rng, rep, scheme, levels));
+            run_cases(cfg, &g, per, rep, |i, rng, rep| exact_case(cfg, &g, i, rng, rep, scheme, levels, &[4, 8, 16]));
         }
         let g = format!("CKKS_{}", levels);
         run_cases(cfg, &g, per, rep, |i, rng, rep| ckks_case(cfg, &g, i, rng, rep, levels));
+    }
+    // large degrees (the observer is the library's own decryptor there; the oracle decryptor is quadratic in N): buffers sized by
+    // a constant, blocking and index types only differ from the small-degree behaviour up there
+    for scheme in [SchemeType::BFV, SchemeType::BGV] {
+        let g = format!("{}_large_degree", scheme_name(scheme));
+        run_cases(cfg, &g, cfg.n(2, 12) as u64, rep, |i, rng, rep| { let levels = 2 + (i as usize % 3); exact_case(cfg, &g, i, rng, rep, scheme, levels, &[1024, 8192, 16384]) });
     }
     if HANG_SEEN.load(Ordering::SeqCst) { rep.note("a call did not return within the deadline; remaining cases were skipped"); }
     PropMeta {
